@@ -41,51 +41,90 @@ func mutexOp(ins ssa.Instruction) (name string, recv ssa.Value, deferred bool) {
 // lock held is a lock wrapper; its callers are then held to the same rule for the wrapper call.
 func ruleUnlock(c *Ctx) {
 	release := map[string]string{"Lock": "Unlock", "RLock": "RUnlock"}
+	cg := cgView{c}
+	// wrappers: a function that only releases (no acquisition of that kind) releases on behalf of its caller; a
+	// function that acquires and contains no release of that kind at all hands the held lock to its caller
+	has := func(f *ssa.Function, name string) bool {
+		if f == nil {
+			return false
+		}
+		for _, b := range f.Blocks {
+			for _, ins := range b.Instrs {
+				if n2, _, _ := mutexOp(ins); n2 == name {
+					return true
+				}
+			}
+		}
+		return false
+	}
+	releaseWrapper := func(f *ssa.Function, rel, acq string) bool {
+		return f != nil && f.Blocks != nil && inModule(f) && has(f, rel) && !has(f, acq)
+	}
 	n := 0
+	var check func(f *ssa.Function, ins ssa.Instruction, name string, recv ssa.Value, desc string, depth int)
+	check = func(f *ssa.Function, ins ssa.Instruction, name string, recv ssa.Value, desc string, depth int) {
+		rel := release[name]
+		releases := func(x ssa.Instruction) bool {
+			if n2, r2, _ := mutexOp(x); n2 == rel && (recv == nil || r2 == recv || sameAddr(r2, recv, 0) || sameLoad(r2, recv)) {
+				return true
+			}
+			var cc *ssa.CallCommon
+			switch y := x.(type) {
+			case *ssa.Call:
+				cc = y.Common()
+			case *ssa.Defer:
+				cc = y.Common()
+			}
+			if cc == nil {
+				return false
+			}
+			if releaseWrapper(cc.StaticCallee(), rel, name) {
+				return true
+			}
+			// defer func() { mu.Unlock() }()
+			if _, isDefer := x.(*ssa.Defer); isDefer {
+				if mc, ok := cc.Value.(*ssa.MakeClosure); ok {
+					if fn, ok := mc.Fn.(*ssa.Function); ok && has(fn, rel) {
+						return true
+					}
+				}
+			}
+			return false
+		}
+		// a deferred release registered before the acquisition on the way here also covers it
+		covered := false
+		for _, b2 := range f.Blocks {
+			for _, x := range b2.Instrs {
+				if _, isDefer := x.(*ssa.Defer); isDefer && releases(x) && b2.Dominates(ins.Block()) && b2 != ins.Block() {
+					covered = true
+				}
+			}
+		}
+		leaks := !covered && escapes(ins, releases)
+		if leaks && !has(f, rel) && depth < 2 {
+			// an acquire wrapper: the obligation moves to its callers
+			if sites := cg.callersOf(f); len(sites) > 0 {
+				for k, site := range sites {
+					check(site.Parent(), site, name, nil, fmt.Sprintf("%s via %s, call #%d", desc, f.Name(), k+1), depth+1)
+				}
+				return
+			}
+		}
+		c.check(!leaks, "C-UNLOCK", funcName(f), desc+" is released on every path", ins.Pos(),
+			"every path from the acquisition to a return passes the matching "+rel+" (or a deferred one)",
+			"a path from this "+name+"() to a return of the function does not release the mutex (an early return between Lock and Unlock): the next caller that needs the lock blocks forever")
+	}
 	for _, f := range c.P.ModuleFuncs() {
 		ord := 0
 		for _, b := range f.Blocks {
 			for _, ins := range b.Instrs {
 				name, recv, deferred := mutexOp(ins)
-				rel, isAcq := release[name]
-				if !isAcq || deferred {
+				if _, isAcq := release[name]; !isAcq || deferred {
 					continue
 				}
 				n++
 				ord++
-				releases := func(x ssa.Instruction) bool {
-					if n2, r2, _ := mutexOp(x); n2 == rel && (r2 == recv || sameAddr(r2, recv, 0) || sameLoad(r2, recv)) {
-						return true
-					}
-					// defer func() { mu.Unlock() }()
-					if d, ok := x.(*ssa.Defer); ok {
-						if mc, ok := d.Call.Value.(*ssa.MakeClosure); ok {
-							if fn, ok := mc.Fn.(*ssa.Function); ok {
-								for _, fb := range fn.Blocks {
-									for _, fi := range fb.Instrs {
-										if n3, _, _ := mutexOp(fi); n3 == rel {
-											return true
-										}
-									}
-								}
-							}
-						}
-					}
-					return false
-				}
-				// a deferred release registered before the acquisition on the way here also covers it
-				covered := false
-				for _, b2 := range f.Blocks {
-					for _, x := range b2.Instrs {
-						if _, isDefer := x.(*ssa.Defer); isDefer && releases(x) && (b2.Dominates(b) && b2 != b) {
-							covered = true
-						}
-					}
-				}
-				leaks := !covered && escapes(ins, releases)
-				c.check(!leaks, "C-UNLOCK", funcName(f), fmt.Sprintf("%s #%d is released on every path", name, ord), ins.Pos(),
-					"every path from the acquisition to a return passes the matching "+rel+" (or a deferred one)",
-					"a path from this "+name+"() to a return of the function does not release the mutex (an early return between Lock and Unlock): the next caller that needs the lock blocks forever")
+				check(f, ins, name, recv, fmt.Sprintf("%s #%d", name, ord), 0)
 			}
 		}
 	}
@@ -703,24 +742,8 @@ func ruleEncoderFresh(c *Ctx) {
 			if !ok {
 				continue
 			}
-			for v := range backSlice(unspillResult(r.Results[0], b)) {
-				switch x := v.(type) {
-				case *ssa.UnOp:
-					if fa, ok := x.X.(*ssa.FieldAddr); ok && x.Op == token.MUL {
-						if types.TypeString(fa.Type().Underlying().(*types.Pointer).Elem(), nil) == "[]uint32" {
-							bad = "the field " + fieldVarOfAddr(fa).Name() + " (a buffer that outlives the call)"
-						}
-					}
-					if g, ok := x.X.(*ssa.Global); ok && x.Op == token.MUL {
-						if types.TypeString(g.Type().Underlying().(*types.Pointer).Elem(), nil) == "[]uint32" {
-							bad = "the package variable " + g.Name()
-						}
-					}
-				case *ssa.Call:
-					if cal := x.Call.StaticCallee(); cal != nil && cal.Pkg != nil && cal.Pkg.Pkg.Path() == "sync" && cal.Name() == "Get" {
-						bad = "an object taken from a sync.Pool"
-					}
-				}
+			if w := sliceStorageOrigin(unspillResult(r.Results[0], b), nil, 0, map[ssa.Value]bool{}); w != "" {
+				bad = w
 			}
 		}
 		c.check(bad == "", "T12-FRESH", funcName(f), "the encoded array is built afresh for every request", f.Pos(),
@@ -1244,4 +1267,92 @@ func pathsOverlap(a, b []string) bool {
 		}
 	}
 	return true
+}
+
+// sliceStorageOrigin: where the memory behind a slice value comes from, following the operations that keep the
+// backing array (re-slicing, append to it, phi, conversions, helpers that return such a value): "" when every
+// origin is fresh (make, a literal, nil, a copying call), otherwise a description of the long-lived origin.
+func sliceStorageOrigin(v ssa.Value, stack []*ssa.Call, depth int, seen map[ssa.Value]bool) string {
+	if v == nil || seen[v] || depth > 6 {
+		return ""
+	}
+	seen[v] = true
+	switch x := v.(type) {
+	case *ssa.Phi:
+		for _, e := range x.Edges {
+			if w := sliceStorageOrigin(e, stack, depth, seen); w != "" {
+				return w
+			}
+		}
+	case *ssa.Slice:
+		return sliceStorageOrigin(x.X, stack, depth, seen)
+	case *ssa.ChangeType:
+		return sliceStorageOrigin(x.X, stack, depth, seen)
+	case *ssa.Convert:
+		return sliceStorageOrigin(x.X, stack, depth, seen)
+	case *ssa.Parameter:
+		if n := len(stack); n > 0 {
+			call := stack[n-1]
+			if cal := call.Call.StaticCallee(); cal != nil {
+				for i, p := range cal.Params {
+					if p == x && i < len(call.Call.Args) {
+						return sliceStorageOrigin(call.Call.Args[i], stack[:n-1], depth+1, seen)
+					}
+				}
+			}
+		}
+	case *ssa.UnOp:
+		if x.Op != token.MUL {
+			return ""
+		}
+		switch a := x.X.(type) {
+		case *ssa.FieldAddr:
+			if _, local := a.X.(*ssa.Alloc); local {
+				// a field of a local struct value: what was stored there
+				stores := map[string][]ssa.Value{}
+				collectFieldStores(a.X, "", stores, 0)
+				for _, sv := range stores["."+fieldVarOfAddr(a).Name()] {
+					if w := sliceStorageOrigin(sv, stack, depth+1, seen); w != "" {
+						return w
+					}
+				}
+				return ""
+			}
+			return "the field " + fieldVarOfAddr(a).Name() + " (a buffer that outlives the call)"
+		case *ssa.Global:
+			return "the package variable " + a.Name()
+		case *ssa.Alloc:
+			for _, r := range *a.Referrers() {
+				if st, ok := r.(*ssa.Store); ok && st.Addr == ssa.Value(a) {
+					if w := sliceStorageOrigin(st.Val, stack, depth, seen); w != "" {
+						return w
+					}
+				}
+			}
+		}
+	case *ssa.Call:
+		if bi, ok := x.Call.Value.(*ssa.Builtin); ok {
+			if bi.Name() == "append" && len(x.Call.Args) > 0 {
+				return sliceStorageOrigin(x.Call.Args[0], stack, depth, seen) // grows (or reuses) the first argument's array
+			}
+			return ""
+		}
+		cal := x.Call.StaticCallee()
+		if cal == nil || !inModule(cal) || cal.Blocks == nil {
+			return "" // library calls that return slices (slices.Clone, bytes, ...) allocate
+		}
+		for _, b := range cal.Blocks {
+			if r, ok := b.Instrs[len(b.Instrs)-1].(*ssa.Return); ok {
+				for _, rv := range r.Results {
+					if _, isSlice := rv.Type().Underlying().(*types.Slice); !isSlice {
+						continue
+					}
+					if w := sliceStorageOrigin(unspillResult(rv, b), append(append([]*ssa.Call{}, stack...), x), depth+1, seen); w != "" {
+						return w
+					}
+				}
+			}
+		}
+	}
+	return ""
 }
